@@ -253,3 +253,108 @@ impl SeqUnwrap {
         self.hi + wire::seq_diff(seq, hi_seq) as i64
     }
 }
+
+/// Sequence-number -> stream-offset table of one direction, rebuilt from the ST_DATA packets the
+/// sender put on the wire (first transmissions appear in sequence order).
+#[derive(Clone, Debug, Default)]
+pub struct DirTable {
+    pub first_seq: u16,
+    /// index (0 = first data sequence number) -> (stream offset, final payload length)
+    pub entries: BTreeMap<i64, (u64, usize)>,
+    /// index of the sender's FIN, if it emitted one
+    pub fin_idx: Option<i64>,
+    pub fin_time: Option<Us>,
+    /// a sequence number was sent with different lengths (MTU probe taken back and cut again)
+    pub recut: bool,
+    /// the sequence space is not what the table assumes (gap); offsets beyond are unknown
+    pub broken: bool,
+}
+
+impl DirTable {
+    /// Stream bytes covered by a cumulative acknowledgement of `ack_seq`.
+    pub fn bytes_acked_by(&self, ack_seq: u16) -> u64 {
+        let idx = wire::seq_diff(ack_seq, self.first_seq) as i64;
+        if idx < 0 {
+            return 0;
+        }
+        match self.entries.range(..=idx).next_back() {
+            Some((_, (off, len))) => off + *len as u64,
+            None => 0,
+        }
+    }
+    /// Total bytes of all data sequence numbers below the FIN (or of everything sent, without FIN).
+    pub fn bytes_below_fin(&self) -> u64 {
+        let lim = self.fin_idx.unwrap_or(i64::MAX);
+        match self.entries.range(..lim).next_back() {
+            Some((_, (off, len))) => off + *len as u64,
+            None => 0,
+        }
+    }
+    pub fn idx_of(&self, seq: u16) -> i64 {
+        wire::seq_diff(seq, self.first_seq) as i64
+    }
+}
+
+pub fn dir_table(view: &WireView, ci: usize, from_initiator: bool) -> DirTable {
+    let conn = &view.conns[ci];
+    let mut t = DirTable::default();
+    let first = match conn.first_data_seq(from_initiator) {
+        Some(s) => s,
+        None => return t,
+    };
+    t.first_seq = first;
+    let mut unwrap = SeqUnwrap::new(first);
+    let mut max_idx: i64 = -1;
+    for &pi in conn.dir(from_initiator) {
+        let wp = &view.pkts[pi];
+        if wp.scripted {
+            continue;
+        }
+        let p = match &wp.pkt {
+            Some(p) => p,
+            None => continue,
+        };
+        if p.ty == wire::ST_FIN {
+            if t.fin_idx.is_none() {
+                t.fin_idx = Some(unwrap.peek(p.seq));
+                t.fin_time = Some(wp.t);
+            }
+            continue;
+        }
+        if p.ty != wire::ST_DATA {
+            continue;
+        }
+        let idx = unwrap.peek(p.seq);
+        if let Some(f) = t.fin_idx {
+            if idx >= f {
+                continue;
+            }
+        }
+        if idx < 0 {
+            continue;
+        }
+        if let Some(e) = t.entries.get_mut(&idx) {
+            if e.1 != p.payload.len() {
+                t.recut = true;
+                if idx == max_idx {
+                    e.1 = p.payload.len();
+                }
+            }
+        } else {
+            if idx != max_idx + 1 {
+                t.broken = true;
+                break;
+            }
+            let _ = unwrap.index(p.seq);
+            let off = if idx == 0 {
+                0
+            } else {
+                let (o, l) = t.entries[&(idx - 1)];
+                o + l as u64
+            };
+            t.entries.insert(idx, (off, p.payload.len()));
+            max_idx = idx;
+        }
+    }
+    t
+}
